@@ -63,7 +63,7 @@ ASSUMPTIONS = [
     'the rsync subprocess of install/reinstall is replaced, in 31 of 32 '
     'histories, by an in-process copy with the same semantics for the '
     'options cylc passes (-a, anchored --exclude, --delete, --dry-run); '
-    'every 32nd history uses the real rsync (spawning rsync costs ~0.3 s '
+    'about one history in 32 uses the real rsync (spawning rsync costs ~0.3 s '
     'CPU here); copying itself is not what the property is about',
     'symlink-dir histories pass --symlink-dirs style configuration to every '
     'install of that history',
@@ -384,7 +384,7 @@ def run_case(ctx, i, rng):
     from cylc.flow.scripts.clean import CleanOptions
 
     import cylc.flow.install as _inst
-    real_rsync = (i % 32 == 3)
+    real_rsync = rng.random() < 1 / 32
     _inst.Popen = FakeRsyncPopen.real if real_rsync else FakeRsyncPopen
     ctx.count('histories_real_rsync' if real_rsync
               else 'histories_rsync_stand_in')
